@@ -514,7 +514,7 @@ func (g *wgen) f32bits() uint32 {
 func (g *wgen) f64bits() uint64 {
 	specials := []uint64{0, 1 << 63, 0x3ff0000000000000, 0x7ff0000000000000, 0xfff0000000000000, 0x7ff8000000000000, 1, 0x7fefffffffffffff,
 		0xbff0000000000000, 0x7ff0000000000001 /* signalling NaN */, 0xfff8000000000001, 0x000fffffffffffff /* largest subnormal */, 0x0010000000000000,
-		0x47efffffe0000000 /* MaxFloat32 */, 0x47f0000000000000 /* just above it */, 0x36a0000000000000 /* smallest float32 subnormal */, 0x4340000000000000 /* 2^53 */,
+		0x47efffffe0000000 /* MaxFloat32 */, 0x47f0000000000000 /* just above it */, 0x36a0000000000000 /* smallest float32 subnormal */, 0x4340000000000000, /* 2^53 */
 		0x43e0000000000000 /* 2^63 */, 0xc3e0000000000000, 0x41dfffffffc00000 /* MaxInt32 */, 0x3fb999999999999a /* 0.1 */, 0x4059000000000000 /* 100 */}
 	if g.rng.Intn(3) == 0 {
 		return specials[g.rng.Intn(len(specials))]
